@@ -147,7 +147,7 @@ pub fn check_tree(m: &M, obs: &mut Obs) -> Result<(), String> {
 
 fn run_trees(ctx: &mut Ctx) {
     let cases = ctx.share(ctx.tier.pick(300_000, 4_000_000));
-    let p = ctx.tier.pick(TreeParams::quick(), TreeParams::thorough()).with_big(2);
+    let p = ctx.tier.pick(TreeParams::quick(), TreeParams::thorough()).with_big(3);
     run_strategy(ctx, "C01", "trees", cases, arb_doc(p), check_tree);
 }
 
